@@ -138,14 +138,30 @@ class RecorderRoles(object):
         def called_methods(fn):
             return {n.func.attr for n in ast.walk(fn.node) if isinstance(n, ast.Call) and _self_attr(n.func)}
         common = called_methods(self.closures['input'][2]) & called_methods(self.closures['output'][2])
+        def calls_own_param(m):
+            return any(isinstance(n, ast.Call) and isinstance(n.func, ast.Name) and n.func.id in m.params[1:] for n in walk_own(m.node))
+
+        def innermost(m, depth=0):
+            # the method that finally invokes the wrapped function: m itself, or the method m hands its parameter to
+            if calls_own_param(m):
+                return m
+            if depth < 3:
+                for n in walk_own(m.node):
+                    if isinstance(n, ast.Call) and _self_attr(n.func) and c.lookup(n.func.attr) is not None and \
+                            any(isinstance(a, ast.Name) and a.id in m.params[1:] for a in n.args):
+                        r = innermost(c.lookup(n.func.attr), depth + 1)
+                        if r is not None:
+                            return r
+            return None
+        self.calls_wrapped = innermost
         execs = []
         for nm in sorted(common):
             m = c.lookup(nm)
             if m is None or m.is_property:
                 continue
-            if any(isinstance(n, ast.Call) and isinstance(n.func, ast.Name) and n.func.id in m.params[1:]
-                   for n in walk_own(m.node)):
-                execs.append(m)
+            r = innermost(m)
+            if r is not None and r not in execs:
+                execs.append(r)
         self.executor = self._onef('interception-executor', execs)
         self.interception_cm = None
         for w in [n for n in walk_own(self.executor.node) if isinstance(n, ast.With)]:
@@ -266,9 +282,12 @@ CASSETTE_MUTATORS = ('create_new_recording', 'save_recording', 'abort_recording'
 
 
 class RecorderPolicy(RepoPolicy):
-    def __init__(self, repo, excm, roles, summaries=None, reentry=True, body_raises=None):
+    def __init__(self, repo, excm, roles, summaries=None, reentry=True, body_raises=None, framework_faults=False):
         RepoPolicy.__init__(self, repo, excm)
         self.roles = roles
+        # framework_faults: additionally let every cassette call fail with an ordinary exception (third-party cassette) and every
+        # plug-in be interrupted (BaseException) - the fault model of C09 ("a failure inside the framework")
+        self.framework_faults = framework_faults
         self.summaries = summaries or Summaries(repo, excm)
         self.reentry = reentry
         self.body_params = set()
@@ -296,6 +315,12 @@ class RecorderPolicy(RepoPolicy):
 
     def plugin_method(self, owner, param, meth):
         return False
+
+    def user_target(self, owner, param, meth, call, frame):
+        t = RepoPolicy.user_target(self, owner, param, meth, call, frame)
+        if self.framework_faults and t.role == 'plugin':
+            return Target('opaque', t.label, raises=self.excm.all, role='plugin')
+        return t
 
     def unknown_receiver(self, recv, meth, call, frame):
         # consuming a value produced by user code with an operation that has type requirements may raise
@@ -351,6 +376,8 @@ class RecorderPolicy(RepoPolicy):
         if key not in self.iface_cache:
             self.iface_cache[key] = self.summaries.iface_raises(iface, meth)
         raises = self.iface_cache[key]
+        if self.framework_faults and iface == 'TapeCassette':
+            raises = frozenset(raises) | self.excm.ordinary
         if iface == 'Recording' and meth in ('get_data', 'get_data_direct', '__getitem__') and \
                 self.key_from_own_keys(call, frame):
             # idiom: the key ranges over the recording's own get_all_keys(): the missing-key error cannot occur
